@@ -13,7 +13,7 @@ VARIABLES tid, l, verdict
 ToSet(s) == {s[i] : i \in DOMAIN s}
 NoTables == <<>>
 T == Traces[tid]
-Stmt(e) == [k |-> e.k, r |-> ToSet(e.r), w |-> e.w, t |-> e.t, pairs |-> [i \in DOMAIN e.pairs |-> <<e.pairs[i][1], e.pairs[i][2]>>]]
+Stmt(e) == [k |-> e.k, r |-> ToSet(e.r), w |-> e.w, t |-> e.t, pairs |-> [i \in DOMAIN e.pairs |-> <<e.pairs[i][1], e.pairs[i][2]>>], cl |-> FALSE]
 Obs(o) == [e |-> {<<x[1], x[2]>> : x \in ToSet(o.e)}, s |-> ToSet(o.s), t |-> ToSet(o.t), i |-> ToSet(o.i), x |-> o.x]
 TInit == /\ tid \in 1..Len(Traces) /\ l = 1 /\ verdict = "run"
          /\ hist = <<>> /\ nodes = <<>> /\ attr = <<>> /\ anch = {} /\ edges = {} /\ crashed = FALSE
